@@ -55,12 +55,20 @@ def decode_case(raw):
         pend_steps.append(s)
     fl = [{"kind": ["data_read", "parity_write", "data_read", "parity_write", "parity_read"][a % 5], "target": b, "n": 1 + c % 12,
            "errno": ENOSPC if (a // 5) % 4 == 3 else EIO} for a, b, c in faults]
-    return {"cfg": cfg, "base": base_steps, "pending": pend_steps, "command": ["sync", "sync", "scrub"][cmd % 3], "faults": fl,
+    command = ["sync", "sync", "scrub", "scrub_pending"][cmd % 4]
+    if command == "scrub_pending":
+        # scrub of an array with changes that were not synced: files re-stamped, rewritten, grown or cut since the last sync
+        pend_steps = []
+        for i, t in enumerate(pend):
+            op = ["touch", "rewrite", "append", "truncate", "touch"][t[0] % 5]
+            st_ = {"op": op, "disk": t[1] % nd, "fi": t[2], "cseed": t[4], "size": gen.size_of(t[3], bs), "kind": 0}
+            pend_steps.append(st_)
+    return {"cfg": cfg, "base": base_steps, "pending": pend_steps, "command": command, "faults": fl,
             "limit": [None, None, 1, 2][limit % 4]}
 
 
 def strategy(tier):
-    return st.tuples(gen.CFG, st.lists(gen.STEP, min_size=2, max_size=6), st.lists(gen.STEP, min_size=1, max_size=6), st.integers(0, 2),
+    return st.tuples(gen.CFG, st.lists(gen.STEP, min_size=2, max_size=6), st.lists(gen.STEP, min_size=1, max_size=6), st.integers(0, 3),
                      st.lists(st.tuples(st.integers(0, 19), st.integers(0, 15), st.integers(0, 23)), min_size=1, max_size=3),
                      st.integers(0, 3)).map(decode_case)
 
@@ -78,7 +86,7 @@ def healthy_synced(c, pos):
 def fault_specs(w, case, c_before):
     """translate generated faults to shim FAIL specs; returns (specs, description)"""
     specs, descr = [], []
-    cmd = case["command"]
+    cmd = "scrub" if case["command"] == "scrub_pending" else case["command"]
     files = []
     for dn in w.arr.disk_names():
         for rel in w.list_files(dn):
@@ -137,6 +145,9 @@ def positions_of(c, fires, bs):
 def run_one(w, case, specs, descr, classes, label):
     """run the command with the faults; returns (why, nontrivial, fire_count)"""
     cmd = case["command"]
+    pending_scrub = cmd == "scrub_pending"
+    if pending_scrub:
+        cmd = "scrub"
     bs = w.arr.bs
     c_pre = w.content_model()
     trf = os.path.join(w.arr.root, "logs", "c08trace%d" % w.arr.ncmd)
@@ -181,6 +192,9 @@ def run_one(w, case, specs, descr, classes, label):
     bad_in_content = [p for p in hit if c.info[p] is not None and c.info[p].bad]
     if bad_in_content and (nbad is None or int(nbad[0]) == 0):
         return "%s: stripes marked bad but status reports none" % label, True, len(fires)
+    if pending_scrub:
+        # the array holds changes the user has not synced: what fix -e / the next sync make of them is not this property's business
+        return None, True, len(fires)
     # all other stripes the command had to process: synced with valid parity, unless the run stopped at the error limit
     stopped = b"Stopping at block" in run.err or b"Stopping at block" in run.out
     if not stopped:
@@ -228,7 +242,7 @@ def run_case(case, ctx):
         r = w.cmd("sync")
         if r.rc != 0:
             return Outcome(ok=True, classes=["base sync refused"])
-        if case["command"] == "sync":
+        if case["command"] in ("sync", "scrub_pending"):
             for s in case["pending"]:
                 w.fs_step(s)
         specs, descr = fault_specs(w, case, None)
